@@ -219,6 +219,12 @@ def handle (req : J) : Except String J := do
   | "modeltuple" => do
     let xs ← decStrs (← field req "in")
     pure (resJ (fun (t : String × String × String) => Lean.Json.arr #[.str t.1, .str t.2.1, .str t.2.2]) (CliArgs.modelTuple xs))
+  | "removebyname" => do
+    let reg ← decReg (← field req "reg")
+    let name ← asStr (← field req "name")
+    let r := reg.removeByName name
+    pure (okJ (Lean.Json.mkObj [("types", encStrs r.types),
+      ("replaces", .arr (r.replaces.map (fun (a, b) => Lean.Json.arr #[.str a, .str b])).toArray)]))
   | "closure" => do
     let n ← asNat (← field req "n")
     let edges ← (← asArr (← field req "edges")).toList.mapM (fun e => do
